@@ -1,5 +1,5 @@
 """C15 — conversions between hash variants lose nothing (field-level clauses)."""
-from ..rules import fields, tail, convert, eqord
+from ..rules import fields, tail, convert, eqord, vis
 
 EXPL = ("Decides with the write census over MIR: every conversion copies each field from the like-named (like-indexed) field of the "
         "source; every function writing through a &mut hash destination defines all five fields on every normal return, arrays "
@@ -25,5 +25,6 @@ def run(ctx):
         ctx.guard("C15", "narrow", lambda: convert.narrowing(ctx, prog))
         ctx.guard("C15", "traits", lambda: convert.trait_forms(ctx, prog))
         ctx.guard("C15", "funnel", lambda: convert.normaliser_funnel(ctx, prog))
+        ctx.guard("C15", "traits", lambda: vis.trait_census(ctx, prog, scope='core::convert::'))
         ctx.guard("C15", "sym", lambda: eqord.len_index_symmetry(ctx, prog, scope=CONV, floor=4))
     return ctx.finish(EXPL, ["copy_from_slice/fill/clone_from_slice have their documented meaning", "source objects are valid (their own tail is zero)"])
